@@ -127,7 +127,7 @@ func (c *monC14) After(m *Machine, s *Step) *Violation {
 func (c *monC14) End(m *Machine) *Violation { return nil }
 
 var kindsC14 = []wk{
-	{"o2start", 24}, {"o2cb", 40}, {"newsess", 5}, {"logout", 3}, {"visit", 5}, {"login", 4}, {"snip:oauth", 18}, {"snip:o2stale", 6},
+	{"o2start", 24}, {"o2cb", 40}, {"newsess", 5}, {"logout", 3}, {"visit", 5}, {"login", 4}, {"snip:oauth", 18}, {"snip:o2stale", 6}, {"snip:o2late", 8}, {"advance", 3},
 }
 
 var c14Codes = []string{"code-u1", "code-u1", "code-u2", "code-weird", "code-empty", "code-uni", "code-long", "code-semi", "code-bad", "code-nodetails", "code-unknown"}
